@@ -72,10 +72,14 @@ def gen_query(rng, cfg, idx):
         labels = vocab_name(rng, 4)
     elif r < 0.96:
         labels = gens.rand_labels(rng, exotic=0.3)
-    else:
+    elif r < 0.98:
         # a long name: the forwarded query is 256 octets or more (stream length prefix with a non-zero high octet)
         rl = lambda k: bytes(rng.choice(b"abcdefghijklmnopqrstuvwxyz0123456789") for _ in range(k))
         labels = [rl(63), rl(63), rl(63), rl(rng.choice([29, 45, 56, 57, 58]))]
+    else:
+        # a long all-binary name: its readable (escaped) form is four times as long
+        rb = lambda k: bytes(rng.choice([0, 1, 7, 31, 127, 128, 200, 254, 255, 255, 0, 46]) for _ in range(k))
+        labels = [rb(63), rb(63), rb(63), rb(rng.choice([40, 57, 58, 58]))]
     # mixed case
     if rng.random() < 0.4:
         labels = [bytes(c - 32 if 97 <= c <= 122 and rng.random() < 0.5 else c for c in l) for l in labels]
@@ -261,6 +265,10 @@ def handle_gen(rng, tier):
         if tls_on:
             cfg = tuple(cfg) + (True,)
         spec = cfg_spec(cfg)
+        if ci >= len(bcfgs) or ci in (0, 2):
+            # rarely varied configuration switches: query logging (the readable form of every name is built), a configured
+            # DoH path (other paths: 404), several UDP reader threads
+            spec += rng.choice(["", ";Q=1", ";Q=1"]) + rng.choice(["", ";H=1"]) + rng.choice(["", ";D=2", ";D=4"])
         if ci >= len(bcfgs) and ci % 3 == 0:
             # the memory cache is on; every case asks a question of its own, so every query is a miss whose answer is
             # stored: the response must be what the cache-less model predicts (storing must not disturb the response)
@@ -287,6 +295,8 @@ def handle_gen(rng, tier):
                         client = rng.choice(["203.0.113.7:4711", "unknown,198.51.100.1", "[2001:db8::1]", "203.0.113", "x",
                                              "198.51.100.300", "0x7f.1.1.1", "1.2.3.4.5", ",1.2.3.4"])
                         hv = " hv=bad"
+            if (l.startswith("http") or l.startswith("fasthttp")) and rng.random() < 0.06:
+                l += rng.choice(["@/other", "@/dns-query/", "@/", "@/dns-query"])
             u = rng.random()
             if u < 0.05:
                 up = "reply:" + gens.hx(gen_reply(rng, name, qtype, qclass, k4=True))
